@@ -410,7 +410,9 @@ def mpu_write(
             spill_sz=spill_sz,
         )
 
-    tk = tokenize(write, mk_header, mk_footer, user_kw, spill_sz)
+    # the data is part of the identity: two uploads that differ only in their
+    # chunks must not share the key of the final task
+    tk = tokenize(data_substream, write, mk_header, mk_footer, user_kw, spill_sz)
     name = f"{dask_name_prefix}-{tk}"
 
     return delayed(_finalizer_dask_op, name=name, pure=True)(
